@@ -108,7 +108,8 @@ def run_batch(ctx, ntasks, store, fine, faults, real_joblib=False):
         env["alg"] = DummyAlgorithm(env["problem"])
         env["alg"].options['max_processes'] = 2
         Env.cache[key] = env
-    problem, alg = env["problem"], env["alg"]
+    problem = env["problem"]
+    alg = env["alg"] = DummyAlgorithm(problem)          # a fresh algorithm (and Job) per execution: nothing carried over by the harness
     alg.options['max_processes'] = procs
     env["ctx"] = ctx
     env["faults"] = faults
